@@ -395,6 +395,25 @@ func c07Body(r *Run) {
 					if !s.closedSeen && !s.stopped && !s.holding && s.subscribed {
 						r.Fail("C07.R6", "the output channel of a cancelled subscription was not closed", "sub %d cancelled at ev %d, consumer still waiting at quiescence", s.id, s.cancelEv)
 					}
+					if !s.closedSeen && (s.stopped || s.holding) && s.subscribed {
+						// nobody reads this channel any more: it has to be closed all the same. What may still be in it is
+						// what its buffer holds; one item more means that a sender is still parked on it.
+						closed := false
+						for k := 0; k <= cap(s.ch); k++ {
+							_, ok, got := simrt.TryRecvRaw(s.ch)
+							if !got {
+								break
+							}
+							if !ok {
+								closed = true
+								s.closedSeen = true
+								break
+							}
+						}
+						if !closed {
+							r.Fail("C07.R6", "the unread output channel of a cancelled subscription was not closed", "sub %d cancelled at ev %d (consumer stopped reading=%v, holds an unsettled message=%v, decorators=%d)", s.id, s.cancelEv, s.stopped, s.holding, w.nDec)
+						}
+					}
 					continue
 				}
 				if !s.subscribed || s.stopped || s.holding {
